@@ -72,6 +72,33 @@ fn main() {
                 }
             }
         }
+        "scaled-times" => {
+            // diagnostic: cost of the scaled grammar families at their maximum size
+            engine::install_quiet_panic_hook();
+            for kind in 0..kiki_verif::gen::SCALED_KINDS {
+                for k in [kiki_verif::gen::SCALED_MAX[kind] / 3, kiki_verif::gen::SCALED_MAX[kind]] {
+                    let spec = kiki_verif::gen::scaled_spec(kind, k, 0x1234);
+                    let g = kiki_verif::props::common::from_spec(spec, kiki_verif::gen::Source::SeedEdits);
+                    let t = std::time::Instant::now();
+                    let o = kiki_verif::outcome::generate(&g.text);
+                    let t_kiki = t.elapsed().as_secs_f64();
+                    if let (Ok(dir), kiki_verif::outcome::Outcome::Ok(text)) = (std::env::var("VERIF_SCALED_DUMP"), &o) {
+                        let _ = std::fs::write(format!("{dir}/{}_{k}.rs", kiki_verif::gen::SCALED_NAMES[kind].replace('-', "_")), text);
+                    }
+                    let t = std::time::Instant::now();
+                    let a = kiki_verif::cfg::Analysis::new(&g.cfg);
+                    let t_ref = t.elapsed().as_secs_f64();
+                    let (lr1, lalr, ok) = match &a {
+                        Ok(a) => (a.lr1.states.len(), a.lalr.states.len(), a.lalr_ok()),
+                        Err(_) => (0, 0, false),
+                    };
+                    println!(
+                        "{:<18} k={:<4} text={:>6}B nts={:>3} terms={:>3} rules={:>3} kiki={:.3}s {} ref={:.3}s lr1={} lalr={} lalr_ok={}",
+                        kiki_verif::gen::SCALED_NAMES[kind], k, g.text.len(), g.spec.nts.len(), g.spec.n_terms, g.spec.n_rules(), t_kiki, o.brief(), t_ref, lr1, lalr, ok
+                    );
+                }
+            }
+        }
         "fuzz" => {
             // diagnostic (tools/fuzz_sensitivity.sh): one E3 campaign alone, no evidence written.
             //   verif fuzz <target> <prop> <runs_total>
